@@ -4,7 +4,7 @@ from fractions import Fraction as F
 from .. import core, gen, detfam
 
 PROP_FILE = 'Knee/Props/C03.lean'
-PROP_FILES = ['Knee/Props/C03.lean', 'Knee/Props/C03A.lean', 'Knee/Props/C03B.lean']
+PROP_FILES = ['Knee/Props/C03.lean', 'Knee/Props/C03A.lean', 'Knee/Props/C03B.lean', 'Knee/Props/C03D.lean']
 RULE = ('exact two-arm elbows: arm lengths 3..64 segments (quick) / ..1500 (thorough), integer x spacings from {1,2,3,4}, ordered pairs of distinct slopes j/8 with |j|<=64, '
         'dyadic offsets up to 2^12, every orientation (convex/concave, rising/falling, V). Every detector (curvature, DFDT, Menger, L-method with every Fit x Cost x Refinement '
         'x limit 4..16, Kneedle t=0 on monotone elbows) must return the corner index; the exact-Q model detectors (Layer S over Layer N criteria) must return it too, and their '
